@@ -201,6 +201,12 @@ class Contract:
                     self.trusted_reason = c.args[0].value if c.args else ""
                 elif f == "use_lemma":
                     self.uses.extend(x.value for x in c.args)
+                elif f == "kwargs_shapes":
+                    # kwargs_shapes({}, {"append_template": bool}): the keyword sets the function is called with;
+                    # the body is verified once per shape with **kwargs a dict of exactly those keys
+                    self.kwargs_shapes = []
+                    for d in c.args:
+                        self.kwargs_shapes.append({k.value: parse_kind(v, kenv) for k, v in zip(d.keys, d.values)})
                 elif f == "modifies_fields":
                     # modifies_fields(self=("_xpath",)): the callee may change exactly these fields of the record
                     # parameter; the post-state is final_<param> in ensures clauses (frame proved at every exit)
@@ -292,7 +298,21 @@ class Contract:
                     continue
                 raise Unsupported(f"{self.fid}: keyword {k}")
             bound[k] = v
-        if self.kwarg is not None:
+        if self.kwarg is not None and getattr(self, "kwargs_shapes", None) is not None:
+            kn, kk = self.kwarg
+            items = {}
+            for k, v in extra.items():
+                if k == "**":
+                    ci = bm.concrete_dict_items(None, v)
+                    if ci is None:
+                        raise Unsupported(f"{self.fid}: symbolic **mapping into shaped **{kn}")
+                    items.update(dict(ci))
+                else:
+                    items[k] = v
+            if not any(set(items) == set(sh) for sh in self.kwargs_shapes):
+                raise Unsupported(f"{self.fid}: keywords {sorted(items)} match no declared kwargs shape")
+            bound[kn] = bm.LitDict(items)
+        elif self.kwarg is not None:
             kn, kk = self.kwarg
             if not extra:
                 bound[kn] = DictV(kk.key, kk.val, z3.Empty(z3.SeqSort(kk.key.sort())), z3.K(kk.key.sort(), z3.FreshConst(kk.val.sort(), "nokw")))
@@ -323,6 +343,9 @@ class Contract:
                     pass
         plist = list(self.params) + ([(self.kwarg[0], self.kwarg[1], None)] if self.kwarg is not None else [])
         for n, k, d in plist:
+            if self.kwarg is not None and n == self.kwarg[0] and isinstance(bound.get(n), bm.LitDict):
+                env[n] = bound[n]
+                continue
             k = instantiate(k, subst)
             if n not in bound:
                 if d is None:
@@ -368,7 +391,7 @@ class Contract:
             res = NONE
         elif getattr(self, "functional", None):
             rk = instantiate(self.ret, subst)
-            fargs = [(n, instantiate(k, subst)) for n, k, _ in self.params if not isinstance(k, KFn)]
+            fargs = [(n, instantiate(k, subst)) for n, k, _ in self.params if not isinstance(k, KFn)]   # (**kwargs not part of the name)
             fn_ = z3.Function(self.functional, *[k.sort() for _, k in fargs], rk.sort())
             res = unbox(fn_(*[box(env[n], k) for n, k in fargs]), rk)
             eng.trusted_used.add(f"{self.fid}: result named {self.functional}(args) at call sites (deterministic in its arguments)")
@@ -615,6 +638,52 @@ class Registry:
 
         self.hooks[("field", kname, attr)] = getter
 
+    def _declare_isinstance(self, kname):
+        import importlib
+
+        kind = KOpaque(kname)
+        classes = []
+        for modn in ("pyxform.survey_element", "pyxform.section", "pyxform.question", "pyxform.survey",
+                     "pyxform.external_instance", "pyxform.entities.entity_declaration"):
+            try:
+                m = extract.import_module(modn)
+            except Exception:  # noqa: BLE001
+                continue
+            base = getattr(extract.import_module("pyxform.survey_element"), "SurveyElement")
+            for v in vars(m).values():
+                if isinstance(v, type) and issubclass(v, base) and v not in classes:
+                    classes.append(v)
+
+        def isa(t, cls):
+            f = z3.Function(f"IsA_{kname}", kind.sort(), z3.StringSort(), z3.BoolSort())
+            return f(t, z3.StringVal(cls.__name__))
+
+        def hook(eng, v, wanted):
+            ws = [c for c in wanted if isinstance(c, type)]
+            if any(c in (str, int, float, bool, list, dict, tuple, bytes) for c in ws):
+                ws = [c for c in ws if c not in (str, int, float, bool, list, dict, tuple, bytes)]
+            # hierarchy facts about this value (added once per value as global axioms of the current function)
+            key = ("isa-axioms", v.t.get_id())
+            if key not in getattr(eng, "_isa_done", set()):
+                eng._isa_done = getattr(eng, "_isa_done", set()) | {key}
+                for a in classes:
+                    for b in classes:
+                        if a is b:
+                            continue
+                        if issubclass(a, b):
+                            eng.axioms.append(z3.Implies(isa(v.t, a), isa(v.t, b)))
+                        elif not issubclass(b, a) and not any(issubclass(c, a) and issubclass(c, b) for c in classes):
+                            eng.axioms.append(z3.Not(z3.And(isa(v.t, a), isa(v.t, b))))
+            return Or(*[isa(v.t, c) for c in ws]) if ws else z3.BoolVal(False)
+
+        self.hooks[("isinstance", kname)] = hook
+
+        def has(eng, v, attr):
+            f = z3.Function(f"HasAttr_{kname}", kind.sort(), z3.StringSort(), z3.BoolSort())
+            return BoolV(f(v.t, z3.StringVal(attr)))
+
+        self.hooks[("hasattr", kname)] = has
+
     # loading
     def load_sidecar(self, path: str):
         with open(path, encoding="utf-8") as f:
@@ -636,6 +705,10 @@ class Registry:
                 kname = st.value.args[0].value
                 for k in st.value.keywords:
                     self._declare_field(kname, k.arg, parse_kind(k.value, kenv))
+            elif isinstance(st, ast.Expr) and isinstance(st.value, ast.Call) and getattr(st.value.func, "id", "") == "declare_isinstance":
+                # declare_isinstance("Elem"): isinstance(e, C) on the opaque kind is the uninterpreted predicate
+                # IsA(e, "C") constrained by the real class hierarchy of pyxform's survey elements
+                self._declare_isinstance(st.value.args[0].value)
             elif isinstance(st, ast.Expr) and isinstance(st.value, ast.Call) and getattr(st.value.func, "id", "") == "declare_class":
                 # declare_class("Survey", "pyxform.survey.Survey"): record kind name -> real class (isinstance tests)
                 cname, dotted = st.value.args[0].value, st.value.args[1].value
@@ -841,7 +914,22 @@ def _cf_parsed_kids(eng, st, pos, kw):
     return [(st, ListV(dom_model.XNODE, dom_model.parsed_kids()(pos[0].t, pos[1].t)))]
 
 
+def _cf_is_a(eng, st, pos, kw):
+    """is_a(e, "ClassName"): the class predicate of an opaque element reference (declare_isinstance)."""
+    e, name = pos
+    f = z3.Function(f"IsA_{e.kind.name}", e.kind.sort(), z3.StringSort(), z3.BoolSort())
+    return [(st, BoolV(f(e.t, name.t)))]
+
+
+def _cf_has_attr(eng, st, pos, kw):
+    e, name = pos
+    f = z3.Function(f"HasAttr_{e.kind.name}", e.kind.sort(), z3.StringSort(), z3.BoolSort())
+    return [(st, BoolV(f(e.t, name.t)))]
+
+
 CONTRACT_FUNCS = {
+    "has_attr": FuncV(_cf_has_attr, "has_attr"),
+    "is_a": FuncV(_cf_is_a, "is_a"),
     "ParsedKids": FuncV(_cf_parsed_kids, "ParsedKids"),
     "some": FuncV(_cf_some, "some"),
     "replace": FuncV(_cf_replace, "replace"),
@@ -858,6 +946,26 @@ CONTRACT_FUNCS = {
     "ite": FuncV(_cf_ite, "ite"),
     "matches": FuncV(_cf_in_re, "matches"),
 }
+
+
+def _dict_wellformed(vals):
+    """Distinct-keys facts for every dict reachable through records / optionals / tuples of the given values."""
+    out, stack = [], list(vals)
+    while stack:
+        v = stack.pop()
+        if isinstance(v, DictV):
+            i, j = z3.FreshConst(z3.IntSort(), "wi"), z3.FreshConst(z3.IntSort(), "wj")
+            n = z3.Length(v.keys)
+            out.append(z3.ForAll([i, j], z3.Implies(z3.And(0 <= i, i < j, j < n), v.keys[i] != v.keys[j])))
+        elif isinstance(v, ObjV):
+            stack.extend(v.fields.values())
+        elif isinstance(v, UnionV):
+            stack.extend(a for _, a in v.alts)
+        elif isinstance(v, TupleV):
+            stack.extend(v.items)
+        elif isinstance(v, bm.LitDict):
+            stack.extend(v.items.values())
+    return out
 
 
 def _own_yields(fn) -> bool:
@@ -912,6 +1020,10 @@ class Verifier(Engine):
 
     def _contract_state(self, st, env, only_env):
         vars_ = {} if only_env else dict(st.vars)
+        if not only_env:
+            for gk, gv in st.ghost.items():   # indices of the enclosing (cut) loops, by their declared names
+                if isinstance(gk, str) and gk.startswith("_loopidx_"):
+                    vars_[gk[len("_loopidx_"):]] = IntV(gv)
         vars_.update(self.old_env if not only_env else {})
         vars_.update(env)
         return State(vars_, st.pc, st.ghost)
@@ -983,16 +1095,32 @@ class Verifier(Engine):
         for o in c.loops:
             if o >= len(ex.loops):
                 raise ContractMismatch(f"{c.fid}: contract names loop {o}, function has {len(ex.loops)}")
+        shapes = getattr(c, "kwargs_shapes", None)
+        if shapes and getattr(self, "_shape", None) is None:
+            for si, sh in enumerate(shapes):
+                self._shape = (si, sh)
+                try:
+                    self.verify(c)
+                finally:
+                    self._shape = None
+            return ex
         # entry state
         env = {}
         inputs = {}
         for n, k, _ in list(c.params) + ([(c.kwarg[0], c.kwarg[1], None)] if c.kwarg else []):
+            if c.kwarg and n == c.kwarg[0] and getattr(self, "_shape", None) is not None:
+                si, sh = self._shape
+                env[n] = bm.LitDict({kk: named(kv, f"p_kw{si}_{kk}") for kk, kv in sh.items()})
+                self.cur_fn = f"{c.fid}[kwargs-shape-{si}]"
+                continue
             v = named(k, f"p_{n}")
             env[n] = v
 
             if not isinstance(k, KFn):
                 inputs[n] = (box(v, k), k)
         st = State(env)
+        for wf in _dict_wellformed(list(env.values())):
+            st = st.assume(wf)   # type invariant of Python dicts: keys are pairwise distinct
         self.old_env = {"__old_" + n: v for n, v in env.items()}
         genv = {}
         for gname, gexpr in c.ghosts:
